@@ -38,10 +38,9 @@ func zzConcInt(x, lo, hi int) int {
 // earlier choices, reach the requested number, prefer nodes whose daemon pods restarted
 // least; with fewer valid nodes than requested an error is reported.
 func ZZ_C15_select() {
+	// (four nodes in the thorough tier did not finish within 25 minutes: the thorough tier keeps three
+	// nodes and combines the canary node selector with the anti-affinity keys)
 	nNodes := 3
-	if nondet.Thorough() {
-		nNodes = 4
-	}
 	withSelector := nondet.Bool("canary.nodeSelector")
 	withZones := nondet.Bool("canary.antiAffinity")
 	if !nondet.Thorough() {
